@@ -1,20 +1,45 @@
-(* C12 — the problem built from a CdE export is exactly what the export says.  Property theorems only (partial: the listed rules
-   are proved of the transcription Json.read_full; the complete input/output behaviour of the transcription is tied to cdedb::read
-   by exact correspondence on every generated export, see DESIGN.md). *)
+(* C12 — the problem built from a CdE export is exactly what the export says.  Property theorems only.
+   CdeSpec.spec_read is a DECLARATIVE specification of cdedb::read: each registration and course is viewed in isolation (view_reg,
+   view_course: what the export says about it for the selected track), the problem is described by filters, a sort and counts over
+   the views.  It and the line-by-line transcription Json.read_fields are both tied to the real reader by exact comparison inside
+   Coq on every generated export x option set; the theorems below are about the specification. *)
 From Coq Require Import List ZArith Lia Bool Arith String.
-Require Import Json CdeThms.
+Require Import Json CdeThms CdeSpec.
 Import ListNotations.
 Open Scope nat_scope.
 
+(* the participants are exactly the registrations that are kept, in key order ... *)
+Theorem C12_participants : forall ign_a rviews p,
+  In p (spec_participants ign_a rviews) <-> exists v, In v rviews /\ kept ign_a v = true /\ p = mk_part v.
+Proof. exact spec_participants_exactly. Qed.
+Theorem C12_participants_order : forall ign_a rviews, map rp_dbid (spec_participants ign_a rviews) = map rv_id (filter (kept ign_a) rviews).
+Proof. exact spec_participants_order. Qed.
+(* ... where `kept` means: status 'participant' in the part of the selected track, not an ignored pre-assigned registration, and a
+   valid choice or an instructed course of the problem *)
+Theorem C12_kept : forall ign_a v, kept ign_a v = true <->
+  rv_part v = true /\ (ign_a = true -> pc_assigned (rv_pcd v) = None) /\ (pc_choices (rv_pcd v) <> [] \/ pc_instr (rv_pcd v) <> None).
+Proof. exact kept_iff. Qed.
 (* each kept choice carries a penalty equal to its position in the registration's choice list; dropping the choices of ignored
    courses does not renumber the others *)
-Theorem C12_penalty_position_partial : forall cmap l res c pen, pcd_choices cmap l 0 = ROk res -> In (c, pen) res ->
+Theorem C12_penalty_position : forall cmap l res c pen, pcd_choices cmap l 0 = ROk res -> In (c, pen) res ->
   exists v cid, nth_error l pen = Some v /\ as_u64 v = Some cid /\ lookup cid cmap = Some (Some c).
 Proof.
   intros cmap l res c pen Hr Hin. destruct (choice_penalty_is_position cmap l 0 res c pen Hr Hin) as (_ & v & cid & Hn & Hv & Hl).
   rewrite Nat.sub_0_r in Hn. eauto.
 Qed.
-(* files of the wrong kind or schema version are refused *)
+(* the courses are exactly the offered (not ignored) ones in sorted order; instructors are stored as running participant indices *)
+Theorem C12_courses : forall ign_a csorted rviews,
+  map rc_dbid (spec_courses ign_a csorted rviews) = map cv_id csorted /\ map rc_name (spec_courses ign_a csorted rviews) = map cv_name csorted.
+Proof. exact spec_courses_exactly. Qed.
+Theorem C12_instructors : forall ign_a rviews ci i, In i (spec_instructors ign_a rviews ci) <->
+  exists v, nth_error (filter (kept ign_a) rviews) i = Some v /\ pc_instr (rv_pcd v) = Some ci.
+Proof. exact spec_instructors_exactly. Qed.
+(* size limits with the defaults 25 and 0 *)
+Theorem C12_limits : forall track_id ign_c ff of k c v, view_course track_id ign_c ff of (k, c) = ROk v ->
+  cv_max v = match get "max_size" c with Some x => match as_u64 x with Some z => z | None => 25%Z end | None => 25%Z end /\
+  cv_min v = match get "min_size" c with Some x => match as_u64 x with Some z => z | None => 0%Z end | None => 0%Z end.
+Proof. exact view_course_limits. Qed.
+(* files of the wrong kind or schema version are refused (transcription) *)
 Theorem C12_refuse_kind : forall data tr ic ia k, get "kind" data = Some (JStr k) -> String.eqb k "partial" = false ->
   exists code, read_full data tr ic ia = RErr code.
 Proof. exact refuse_wrong_kind. Qed.
@@ -22,7 +47,13 @@ Theorem C12_refuse_version : forall data tr ic ia a b, get "kind" data = Some (J
   get "EVENT_SCHEMA_VERSION" data = Some (JArr [JInt a; JInt b]) -> (a < 7 \/ 19 < a)%Z -> exists code, read_full data tr ic ia = RErr code.
 Proof. exact refuse_version. Qed.
 
-Check C12_penalty_position_partial. Check C12_refuse_kind. Check C12_refuse_version.
-Print Assumptions C12_penalty_position_partial.
+Check C12_participants. Check C12_participants_order. Check C12_kept. Check C12_penalty_position. Check C12_courses. Check C12_instructors.
+Check C12_limits. Check C12_refuse_kind. Check C12_refuse_version.
+Print Assumptions C12_participants.
+Print Assumptions C12_kept.
+Print Assumptions C12_penalty_position.
+Print Assumptions C12_courses.
+Print Assumptions C12_instructors.
+Print Assumptions C12_limits.
 Print Assumptions C12_refuse_kind.
 Print Assumptions C12_refuse_version.
